@@ -146,6 +146,8 @@ class AbstractAst:
             self.visit(ctx.specification())
         except RecursionError:
             raise RTAMTException('The specification is nested too deeply to be parsed within the recursion limit of the interpreter')
+        except (ValueError, OverflowError) as err:
+            raise RTAMTException('The specification contains a number that cannot be converted: {}'.format(err))
         return
 
     def ends_with_semicolon(self, text):
